@@ -65,6 +65,26 @@ Theorem c11_grow_negative : forall b s n, (n < 0)%Z ->
   step b (Grow n) = (b, (st_neg_count, [])) /\ sstep s (Grow n) = (s, (st_neg_count, [])).
 Proof. exact grow_negative. Qed.
 
+(* the state a recovered panic leaves behind (lastRead on every panicking path), and the nil receiver of String *)
+Theorem c11_truncate_panic_state : forall b n, (n <> 0)%Z -> (n < 0 \/ zn (blen b) < n)%Z ->
+  step b (Truncate n) = (set_last b 0%Z, (st_trunc, [])).
+Proof. exact truncate_panic_state. Qed.
+Theorem c11_next_panic_state : forall b n, (n < 0)%Z -> step b (Next n) = (set_last b 0%Z, (st_panic, [])).
+Proof. exact next_panic_state. Qed.
+Theorem c11_writeto_panic_state : forall b m e, blen b <> 0 -> (zn (blen b) < m)%Z ->
+  step b (WriteTo m e) = (set_last b 0%Z, (st_bad_write, (-1)%Z :: live b)).
+Proof. exact writeto_panic_state. Qed.
+Theorem c11_rewrite_panic_state : forall b pos p, rewrite_at (bytes b) pos p = Panic -> step b (ReWrite pos p) = (b, (st_panic, [])).
+Proof. exact rewrite_panic_state. Qed.
+Theorem c11_unread_after_invalidating_panic : forall b,
+  snd (step (set_last b 0%Z) UnreadByte) = (st_unread, []) /\ snd (step (set_last b 0%Z) UnreadRune) = (st_unread, []).
+Proof. exact unread_after_invalidating_panic. Qed.
+Theorem c11_truncate_panic_contract : forall s n, (n <> 0)%Z -> (n < 0 \/ zn (length (un s)) < n)%Z ->
+  sstep s (Truncate n) = (mk (un s) None (pre s), (st_trunc, [])).
+Proof. exact truncate_panic_contract. Qed.
+Theorem c11_nil_string_contract : forall b s, step b (ONil 0%Z) = (b, (st_ok, nil_string)) /\ sstep s (ONil 0%Z) = (s, (st_ok, nil_string)).
+Proof. exact nil_string_contract. Qed.
+
 (* all five paths of grow() (and the reslice-first variant the writes use) keep the unread bytes, the invariant and
    len = m + n *)
 Theorem c11_grow_keeps_unread : forall b n b1 m, Inv b -> grow b n = (b1, m) -> grow_post b b1 m n.
@@ -171,6 +191,13 @@ Print Assumptions c11_too_large_beyond_max_alloc.
 Print Assumptions c11_never_too_large_when_allocatable.
 Print Assumptions c11_overflow_guard_is_too_large.
 Print Assumptions c11_grow_negative.
+Print Assumptions c11_truncate_panic_state.
+Print Assumptions c11_next_panic_state.
+Print Assumptions c11_writeto_panic_state.
+Print Assumptions c11_rewrite_panic_state.
+Print Assumptions c11_unread_after_invalidating_panic.
+Print Assumptions c11_truncate_panic_contract.
+Print Assumptions c11_nil_string_contract.
 Print Assumptions c11_grow_keeps_unread.
 Print Assumptions c11_grow_for_write_keeps_unread.
 Print Assumptions c11_rewrite_contract.
